@@ -10,7 +10,7 @@ GROUP = "Shared"
 META = {
     "group": "Shared",
     "technique": "Coq proof over a model of the symbol-table shared-flag locking protocol across a go statement (all interleavings) and of commuting critical sections + generated concurrent Ego programs run on the real interpreter under the Go race detector with a seeded Gosched hook in the dispatch loop",
-    "text": "C08_marked_before_conflict / C08_no_race_all_schedules: for every interleaving of any number of table reads/writes/Shared(true) calls of the launching and the new goroutine, no two conflicting accesses meet on a table with one side unlocked, given that every table both can reach is marked at the fork (C08_fork_marks_captured_chain: what the repaired goByteCode establishes for the captured chain) and each otherwise stays below tables it created; C08_old_refuted gives the BUG-94 schedule; C08_startup_old_refuted: before fix 7d20e5f5 GoRoutine's start-up read the launcher's c.symbols and the next-scope cache of its unshared current scope table (found by the race detector, repaired: goByteCode resolves the scope before go). C08_sync_deterministic: any two serialisations of the goroutines' critical sections / hand-offs (commutative updates) leave every shared variable with the same value. The real interpreter is exercised by generated programs (goroutines, closures capturing the parent's scope, channels, WaitGroups, mutexes, fully synchronized results) built with -race, GOMAXPROCS 1..8, seeded runtime.Gosched injection before each instruction; any race report, fatal error, or stdout different from the computed result is a violation. partial: the Go memory model, races outside symbol tables (context fields, channel wrapper, runtime packages) and the claim that the code satisfies the theorem's reach hypotheses are only observed by the race detector; comparison with `go run` is replaced by a result computed by the generator",
+    "text": "C08_marked_before_conflict / C08_no_race_all_schedules: for every interleaving of any number of table reads/writes/Shared(true) calls of the launching and the new goroutine, no two conflicting accesses meet on a table with one side unlocked, given that every table both can reach is marked at the fork (C08_fork_marks_captured_chain: what the repaired goByteCode establishes for the captured chain) and each otherwise stays below tables it created; C08_old_refuted gives the BUG-94 schedule; C08_startup_old_refuted: before fix 7d20e5f5 GoRoutine's start-up read the launcher's c.symbols and the next-scope cache of its unshared current scope table (found by the race detector, repaired: goByteCode resolves the scope before go). C08_read_locked_lookup_writes_nothing_shared / C08_cache_on_shared_refuted: a Get that falls through a shared table holds only its read lock and stores nothing in it (the next-scope cache is skipped), while the caching-on-shared variant races; the model's flags and cache writes are compared with real SymbolTables on generated operation sequences. C08_sync_deterministic: any two serialisations of the goroutines' critical sections / hand-offs (commutative updates) leave every shared variable with the same value. The real interpreter is exercised by generated programs (goroutines, closures capturing the parent's scope, channels, WaitGroups, mutexes, fully synchronized results) built with -race, GOMAXPROCS 1..8, seeded runtime.Gosched injection before each instruction; any race report, fatal error, or stdout different from the computed result is a violation. partial: the Go memory model, races outside symbol tables (context fields, channel wrapper, runtime packages) and the claim that the code satisfies the theorem's reach hypotheses are only observed by the race detector; comparison with `go run` is replaced by a result computed by the generator",
     "note": "Trusted: Coq kernel; hand-written model coq/Shared/Model.v of symbols.Shared/RLock/Lock and goByteCode/GoRoutine; the Go race detector; harness/C08 (in-package overlay, instrumented copy of run.go); props/C08.py generator and its computed expected outputs.",
 }
 
@@ -76,6 +76,148 @@ def gen_program(rng, kind=None):
 
 
 KINDS = ["mutex", "fanin", "named", "afterfork", "pipeline", "callafter", "nested", "wgslots"]
+
+
+def gen_forest(rng):
+    """Random forest case for harness/C08/symbols_test.go: tables parents first, at most one boundary table
+    (the function scope) on every chain, a captured table at or below a boundary for the concurrent part."""
+    paths = [[]]
+    for _ in range(rng.randint(2, 6)):
+        parent = rng.choice(paths)
+        if len(parent) >= 4:
+            parent = []
+        kids = [p for p in paths if p[1:] == parent and len(p) == len(parent) + 1]
+        paths.append([len(kids)] + parent)
+    bnd = []
+    for p in paths:
+        if p and not any(b == p[len(p) - len(b):] for b in bnd if len(b) < len(p)) and rng.random() < 0.5:
+            bnd.append(p)
+    if not bnd:
+        bnd.append(paths[1])
+    tables = [{"path": p, "boundary": p in bnd} for p in paths]
+    ops = []
+    for _ in range(rng.randint(5, 12)):
+        ops.append({"op": rng.choice(["mark", "get", "get", "get", "set"]), "t": rng.randrange(len(paths))})
+    # captured scope: a table that is a boundary or below one
+    cands = [i for i, p in enumerate(paths) if any(b == p[len(p) - len(b):] for b in bnd)]
+    return {"tables": tables, "ops": ops, "captured": rng.choice(cands), "goroutines": rng.randint(2, 5), "iters": rng.randint(20, 60)}
+
+
+def coq_path(p):
+    return "[" + ";".join(str(x) for x in p) + "]"
+
+
+def coq_bools(bs):
+    return "[" + ";".join("true" if b else "false" for b in bs) + "]"
+
+
+def symbols_stage(ck, quick):
+    """Correspondence of coq/Shared seq_obs with the real symbols package + white-box oracle + race detector."""
+    pkg = "internal/language/symbols"
+    ok, binp = vf.go_test_build(ck.work, pkg, {pkg + "/zz_verif_c08_symbols_test.go": os.path.join(vf.HARNESS, "C08", "symbols_test.go")},
+                                "c08sym.test", race=True, timeout=1200)
+    if not ok:
+        ck.violation("harness-build", "race harness for %s does not build:\n%s" % (pkg, binp[-1500:]), replay={"log": binp[-3000:]},
+                     found_input=False)
+        return
+    cases = []
+    if ck.replay_file:
+        rp = json.load(open(ck.replay_file))["replay"]
+        if "forest" not in rp:
+            return
+        cases = [dict(rp["forest"], id=0)]
+    else:
+        # corpus first: the shape of the go opcode for `func run() { for ... { go func(){...}() ... } }`
+        cases.append({"tables": [{"path": [], "boundary": False}, {"path": [0], "boundary": True}, {"path": [0, 0], "boundary": False}],
+                      "ops": [{"op": "get", "t": 2}, {"op": "mark", "t": 2}, {"op": "get", "t": 2}, {"op": "get", "t": 1}, {"op": "set", "t": 1}],
+                      "captured": 2, "goroutines": 6, "iters": 80})
+        for _ in range(40 if quick else 400):
+            cases.append(gen_forest(ck.rng))
+        for i, c in enumerate(cases):
+            c["id"] = i
+    inp = os.path.join(ck.work, "sym_in.json")
+    outp = os.path.join(ck.work, "sym_out.json")
+    json.dump(cases, open(inp, "w"))
+    rc, log = vf.run_bin(binp, "^TestVerifC08Symbols$", {"VERIF_IN": inp, "VERIF_OUT": outp,
+                                                         "GORACE": "halt_on_error=0 exitcode=0 history_size=2"}, timeout=600)
+    if not os.path.exists(outp):
+        ck.violation("symbols-harness-run", "symbols harness failed:\n" + log[-1500:], replay={"log": log[-3000:]}, found_input=False)
+        return
+    res = {r["id"]: r for r in json.load(open(outp))}
+    chunks = re.split(r"=== VERIF (?:PROG (\d+)|END)\n", log)
+    per = {}
+    for k in range(1, len(chunks), 2):
+        per[chunks[k]] = chunks[k + 1] if k + 1 < len(chunks) else ""
+    nops, found = 0, False
+    for c in cases:
+        r = res.get(c["id"])
+        text = per.get(str(c["id"]), "")
+        if "WARNING: DATA RACE" in text or "fatal error:" in text:
+            m = re.search(r"WARNING: DATA RACE\n(.*?)\n==================", text, re.S)
+            rep = m.group(1) if m else text[:3000]
+            sig = "symbols-race:nextscope-cache" if re.search(r"cachedNextScope|setCachedNextScope", rep) else "symbols-race"
+            ck.violation(sig, "Go race detector report in internal/language/symbols: goroutines with private frames below a captured (shared) "
+                         "scope resolving a root name / writing their locals:\n" + rep[:1200],
+                         replay={"forest": {k: c[k] for k in c if k != "id"}, "report": rep[:3000]})
+            found = True
+        if r is None:
+            continue
+        if r.get("err"):
+            ck.violation("symbols-op-failed", "symbols harness: %s" % r["err"], replay={"forest": {k: c[k] for k in c if k != "id"}})
+            found = True
+        prev = r["init"]
+        for op, o in zip(c["ops"], r["obs"]):
+            nops += 1
+            if op["op"] == "get":
+                bad = [i for i, (sh, d) in enumerate(zip(prev, o["dirty"])) if sh and d]
+                if bad:
+                    ck.violation("write-under-read-lock:nextscope-cache",
+                                 "Get through table %s stored into the next-scope cache of shared table(s) %s while holding only their read lock"
+                                 % (c["tables"][op["t"]]["path"], [c["tables"][i]["path"] for i in bad]),
+                                 replay={"forest": {k: c[k] for k in c if k != "id"}, "op": op})
+                    found = True
+            if op["op"] == "mark":
+                p = c["tables"][op["t"]]["path"]
+                miss = [t["path"] for i, t in enumerate(c["tables"]) if t["path"] == p[len(p) - len(t["path"]):] and not o["flags"][i]]
+                if miss:
+                    ck.violation("mark-misses-ancestor", "Shared(true) on %s left %s unshared" % (p, miss),
+                                 replay={"forest": {k: c[k] for k in c if k != "id"}, "op": op})
+                    found = True
+            prev = o["flags"]
+    ck.cov["symbols_ops_observed"] = nops
+    ck.cov["symbols_forests"] = len(cases)
+    # correspondence with the model (same functions the theorems are about)
+    if not getattr(ck, "coq_broken", None):
+        lines = ["From Coq Require Import List Bool. Import ListNotations.", "From Shared Require Import Model.",
+                 "Definition bl_eqb (a b : list bool) : bool := if list_eq_dec Bool.bool_dec a b then true else false.",
+                 "Fixpoint obs_eqb (a b : list (list bool * list bool)) : bool := match a, b with [] , [] => true | (x1, x2) :: a', (y1, y2) :: b' => bl_eqb x1 y1 && bl_eqb x2 y2 && obs_eqb a' b' | _, _ => false end.",
+                 "Definition cases : list (nat * (list table * list table * flags * list sop * list (list bool * list bool))) := ["]
+        items = []
+        for c in cases:
+            r = res.get(c["id"])
+            if r is None or len(r["obs"]) != len(c["ops"]):
+                continue
+            U = [t["path"] for t in c["tables"]]
+            B = [t["path"] for t in c["tables"] if t["boundary"]]
+            S0 = [U[i] for i, f in enumerate(r["init"]) if f]
+            ops = ";".join("%s %s" % ({"mark": "SMark", "get": "SGet", "set": "SSet"}[o["op"]], coq_path(U[o["t"]])) for o in c["ops"])
+            obs = ";".join("(%s, %s)" % (coq_bools(o["flags"]), coq_bools(o["dirty"])) for o in r["obs"])
+            items.append("(%d, ([%s], [%s], [%s], [%s], [%s]))" % (c["id"], ";".join(map(coq_path, B)), ";".join(map(coq_path, U)),
+                                                                   ";".join(map(coq_path, S0)), ops, obs))
+        lines.append(";\n".join(items))
+        lines.append("].")
+        lines.append("Definition BAD : list nat := Eval vm_compute in map fst (filter (fun c => match snd c with (B, U, S0, ops, obs) => negb (obs_eqb (seq_obs false B U S0 ops) obs) end) cases).")
+        lines.append("Eval vm_compute in BAD.")
+        rc2, out = vf.coq_run(GROUP, ck.work, "symcases", "\n".join(lines))
+        bad = vf.parse_coq_nat_list(out) if rc2 == 0 else None
+        ck.add_obligations(len(items), len(items) - (len(bad) if bad is not None else len(items)))
+        if bad is None:
+            ck.violation("symbols-correspondence-eval", "model evaluation failed:\n" + out[-1500:], replay={"log": out[-3000:]}, found_input=False)
+        elif bad and not found:
+            c = [x for x in cases if x["id"] == bad[0]][0]
+            ck.violation("symbols-correspondence", "model seq_obs and the real symbols package disagree on shared flags / next-scope cache writes "
+                         "(%d of %d forests), first: tables %s" % (len(bad), len(items), [t["path"] for t in c["tables"]]),
+                         replay={"forest": {k: c[k] for k in c if k != "id"}, "observed": res[c["id"]]}, found_input=False)
 
 
 def instrument_run_go(work):
@@ -149,7 +291,8 @@ def run(ck):
               "the Go race detector reports the unsynchronized accesses that actually occur in the observed schedules")
     ck.trusted("harness/C08/c08_test.go, harness/C08/yield.go, instrumented copy of bytecode/run.go (verifYield at the top of the dispatch loop)",
                "go test -race build of internal/server/services", "props/C08.py generator and expected outputs")
-    theorems = ["C08_marked_before_conflict", "C08_no_race_all_schedules", "C08_startup_old_refuted", "C08_startup_old_schedule",
+    theorems = ["C08_marked_before_conflict", "C08_no_race_all_schedules", "C08_read_locked_lookup_writes_nothing_shared",
+                "C08_cache_on_shared_refuted", "C08_startup_old_refuted", "C08_startup_old_schedule",
                 "C08_fork_marks_captured_chain", "C08_old_refuted", "C08_sync_deterministic", "C08_sync_deterministic_any_threads"]
     ck.coq_stage(GROUP, theorems=theorems)
 
@@ -162,6 +305,8 @@ def run(ck):
         ck.add_obligations(1, 1 if okc and resc.get("new") == [0] and resc.get("old") == [1] and resc.get("startup") == [1] else 0)
         if not okc or resc.get("new") != [0] or resc.get("old") != [1] or resc.get("startup") != [1]:
             ck.violation("model-corpus", "model corpus evaluation changed: %s" % (resc,), replay={"out": str(resc)[-2000:]}, found_input=False)
+
+    symbols_stage(ck, quick)
 
     ok, binp = build_race_binary(ck)
     if not ok:
@@ -178,7 +323,7 @@ def run(ck):
     else:
         for k in KINDS:                       # one of each shape first (regression corpus of shapes)
             progs.append(gen_program(ck.rng, k))
-        for _ in range(16 if quick else 120):
+        for _ in range(10 if quick else 120):
             progs.append(gen_program(ck.rng))
         procs = [1, 2, 4, 8] if quick else [1, 2, 3, 4, 6, 8]
         configs = []
